@@ -1,6 +1,7 @@
 package server
 
 import (
+	"fmt"
 	"context"
 	"testing"
 	"time"
@@ -55,7 +56,7 @@ func TestHuntPartialModelModify(t *testing.T) {
 
 			srvRow := huntSelect(t, writer, "T")[uuid]
 			got := c.Cache().Table("T").Row(uuid).(*huntTSmall)
-			if srvRow["num"] != got.Num {
+			if fmt.Sprint(srvRow["num"]) != fmt.Sprint(got.Num) {
 				t.Errorf("expected cached T.num == %v as held by the database, cache holds %v", srvRow["num"], got.Num)
 			}
 			if n := len(c.Cache().Table("U").Rows()); n != 1 {
